@@ -158,3 +158,11 @@ int sz_replace1 (int a, int b, int r) {
 }
 // regexp backtracking: "(a|aa)*b" against "a" * n + "cb" visits about 1.6^n nodes; matching is charged against the evaluation cost
 int rx (int n) { regexp (({ str (n, "a") + "cb" }), "(a|aa)*b"); return 0; }
+// unique_mapping (array, f): one key per distinct result of f
+int sz_unique_mapping (int n, int groups) { g_groups = groups; return chk (unique_mapping (iota (n), (: group_of :))); }
+// d mappings inside each other (as values): svalue_save_size has its own depth test for mappings
+mixed nestm (int d) { mixed m = ([ ]); int i; for (i = 1; i < d; i++) m = ([ 1 : m ]); return m; }
+int sz_save_nested_map (int d) { return strlen (save_variable (nestm (d))); }
+// how deep a value save_variable accepted was nested (arrays / mappings): judged against MAX_SAVE_SVALUE_DEPTH
+int sz_save_depth (int d) { save_variable (nest (d)); return d < 1 ? 1 : d; }
+int sz_save_depth_map (int d) { save_variable (nestm (d)); return d < 1 ? 1 : d; }
